@@ -607,6 +607,42 @@ func c11H5(c *Ctx, w *World) {
 				return true
 			})
 		}
+		// inside the batch the lookups of the dropped blocks are deleted BEFORE those of the new branch are written:
+		// a batch is applied in order, and a transaction carried by both branches must end up with its new lookup
+		{
+			var dels, writes []ssa.CallInstruction
+			for _, ci := range callInstrs(f) {
+				if o := calleeObj(ci); o != nil && o.Pkg() != nil && o.Pkg().Path() == full("core/rawdb") {
+					switch o.Name() {
+					case "DeleteTxLookupEntry":
+						dels = append(dels, ci)
+					case "WriteTxLookupEntries":
+						writes = append(writes, ci)
+					}
+				}
+				if callee := staticCallee(ci); callee != nil {
+					for _, cj := range callInstrs(callee) {
+						if o := calleeObj(cj); o != nil && o.Name() == "WriteTxLookupEntries" && o.Pkg() != nil && o.Pkg().Path() == full("core/rawdb") {
+							if _, has := batchParam[callee]; has {
+								writes = append(writes, ci)
+							}
+						}
+					}
+				}
+			}
+			if len(dels) > 0 && len(writes) > 0 {
+				c.sites++
+				okOrder := true
+				for _, d := range dels {
+					for _, wr := range writes {
+						if !(instrDominates(d, wr) || loopBefore(d, wr)) {
+							okOrder = false
+						}
+					}
+				}
+				c.Check(fname(f)+"#lookup-deletions-before-lookup-writes", f.Pos(), okOrder, ifelse(okOrder, "every DeleteTxLookupEntry of the batch precedes every lookup write of the new branch", "the batch writes the new branch's lookups and deletes the dropped blocks' lookups afterwards: a transaction that both branches carry is written and then deleted, so a canonical transaction is left without a lookup for good"))
+			}
+		}
 		c.sites++
 		c.Check(fname(f)+"#one-batch-carries-the-group", f.Pos(), len(batches) == 1, ifelse(len(batches) == 1, "all group writes of this function go to one batch", fmt.Sprintf("the group writes of this function go to %d batches: they are not atomic", len(batches))))
 		if len(batches) != 1 {
